@@ -35,13 +35,15 @@ RULE = ('Hypothesis RuleBasedStateMachine: @initialize draws a document (profile
         'a few drawn call sequences are executed in two fresh interpreters, forwards and backwards, and every call must '
         'give the same result in both orders (interpreter-global state).  Excerpt sweeps: for measure-structured scores '
         'with signature changes, ALL (from, to) ranges of one imported document are exported in a drawn order and back, '
-        'each compared with the same excerpt of a copy imported for that call alone.  '
+        'each compared with the same excerpt of a copy imported for that call alone (splits may stay open across '
+        'barlines); then the text is imported 24 times in a row (padding imports in between, so that process-wide counters take every residue of small moduli) and every excerpt must be the same text for all copies.  '
         'Non-trivial: >=3 distinct operations of which at least one raised or used a filter.')
 ASSUMPTIONS = ['state hidden outside Python attributes (ANTLR DFA caches) is only seen if it changes a result',
                'graph output is compared after canonical renaming of node<address> and #<node id> (process-global counters)']
 ENCS = list(K.ENCODINGS)
 REPEATABLE = ('dumps', 'tokens', 'unique', 'encodings', 'unique_encodings', 'frequencies', 'metacomments', 'spine_types', 'mono',
               'count', 'first', 'spine_ids')
+NCOPIES = 24
 CONSTS0 = SN.constants()  # taken once, when the process is still pristine
 
 
@@ -493,7 +495,8 @@ def check_orders(case):
 # ---- every excerpt of one document object, in a drawn order, against fresh imports ------------------------------------
 @st.composite
 def sweep_cases(draw):
-    doc = draw(D.measure_documents(D.mprofile(others=draw(st.booleans()), sig_changes=True, max_measures=5, sig_after_bar=True, quiet_spines=True)))
+    doc = draw(D.measure_documents(D.mprofile(others=draw(st.booleans()), sig_changes=True, max_measures=5, sig_after_bar=True, quiet_spines=True,
+                                              rejoin_before_bar=draw(st.booleans()))))  # splits may stay open across barlines
     return {'doc': doc, 'perm': draw(st.permutations(list(range(21)))), 'enc': draw(st.sampled_from(['kern', 'ekern', 'bekern']))}
 
 
@@ -523,6 +526,28 @@ def check_sweep(case):
         if got != fresh[(a, b)]:
             raise Bad('excerpt-depends-on-history', f'dumps(from_measure={a}, to_measure={b}, {case["enc"]}) as call {n} of the sweep '
                       f'{order + order[::-1]} differs from the same call on a freshly imported copy\n--- fresh\n{fresh[(a, b)]}\n--- in the sweep\n{got}\n{text}')
+    # two imports of the same text are indistinguishable: NCOPIES imports in a row (each one moves every process-wide
+    # counter on - node ids, object addresses), every excerpt 'from measure a to the end' must be the same text in all
+    # (every second import is preceded by the import of a three-node padding score, so that the counters advance by N and
+    # N + 3 in turn: whatever their value at the start, the copies meet every residue of small moduli - the outcome does
+    # not depend on what the process did before, and a failure reproduces)
+    copies = []
+    for k in range(NCOPIES):
+        if k % 2:
+            kp.loads('**kern\n*-\n')
+        copies.append(kp.loads(text)[0])
+    for a in range(1, M + 1):
+        outs = []
+        for c in copies:
+            try:
+                outs.append(kp.dumps(c, from_measure=a, to_measure=M, encoding=enc))
+            except Exception as e:  # noqa
+                outs.append(['EXC', type(e).__name__])
+        n += len(outs)
+        j = next((j for j, o in enumerate(outs) if o != outs[0]), None)
+        if j is not None:
+            raise Bad('imports-distinguishable', f'dumps(from_measure={a}, to_measure={M}, {case["enc"]}) differs between the 1st and the {j + 1}th '
+                      f'import of the same text in one process\n--- import 1\n{outs[0]}\n--- import {j + 1}\n{outs[j]}\n{text}')
     return Result(nontrivial=len(ranges) >= 6, classes=['excerpt-sweep', f'measures={M}'], sample={'document': text, 'order': order[:6]},
                   key=['sweep', text, order], evals=2 * len(order))
 
